@@ -9,7 +9,7 @@ cmd = [c["quick_cmd"] for c in json.load(open("/verif/MANIFEST.json"))["checks"]
 def sh(c): return subprocess.run(c, capture_output=True, text=True)
 sh(["git", "-C", wt, "checkout", "-q", "--", "."])
 r = sh(["git", "-C", wt, "apply", os.path.join(d, "patch.diff")]); assert r.returncode == 0, r.stderr
-c = subprocess.run(cmd, capture_output=True, text=True, env=dict(os.environ, VERIF_REPO=wt), cwd="/verif")
+c = subprocess.run(cmd, capture_output=True, text=True, env=dict(os.environ, VERIF_REPO=wt), cwd=os.environ.get("SEED_VERIF", "/verif"))
 sh(["git", "-C", wt, "checkout", "-q", "--", "."])
 lines = [l[:300] for l in (c.stdout + c.stderr).split("\n") if "VIOLATION" in l or l.strip().startswith("->") or "KNOWN-FINDING" in l][:8]
 meta.setdefault("rechecks", []).append({"cmd": "VERIF_REPO=<worktree with patch> " + " ".join(cmd), "exit": c.returncode, "output": lines, "note": note})
